@@ -63,6 +63,7 @@ def Cst.lexM : Cst → List Lex
   | .set r _ its _ => recLex r ++ .tok ['{'] :: its.lexM ++ [.tok ['}']]
   | .paren its _ => .tok ['('] :: its.lexM ++ [.tok [')']]
   | .app f cs _ a => f.lexM ++ ncm cs ++ a.lexM
+  | .kw w c1 _ h c2 _ c3 _ b => .tok (kwText w) :: ncm c1 ++ h.lexM ++ ncm c2 ++ .tok [';'] :: ncm c3 ++ b.lexM
 def Items.lexM : Items → List Lex
   | .nil => []
   | .cmt _ t rest => normCmt t :: rest.lexM
@@ -206,24 +207,6 @@ theorem allOk_append : ∀ {a b : List Expr}, allOk a → allOk b → allOk (a +
 theorem allOk_single {e : Expr} (h : e.ok) : allOk [e] := ⟨h, trivial⟩
 theorem lexOutAll_single (e : Expr) : lexOutAll [e] = e.lexOut false := by simp [lexOutAll]
 
-theorem ok_after {e : Expr} (h : e.ok) : TrivOk e.after := by
-  cases e with
-  | leaf k t b a => exact h.2.2
-  | list v m inn b a => exact h.2.2.2
-  | set v m r inn b a => exact h.2.2.2
-  | binding n v g b a => exact h.2.2.2
-  | paren v lg tg lb tb b a => exact h.2.2
-  | app n x g fa b a => exact h.2.2.2.2
-
-theorem ok_before {e : Expr} (h : e.ok) : TrivOk e.before := by
-  cases e with
-  | leaf k t b a => exact h.2.1
-  | list v m inn b a => exact h.2.2.1
-  | set v m r inn b a => exact h.2.2.1
-  | binding n v g b a => exact h.2.2.1
-  | paren v lg tg lb tb b a => exact h.2.1
-  | app n x g fa b a => exact h.2.2.2.1
-
 theorem ok_setBefore {e : Expr} (h : e.ok) {b : List Trivia} (hb : TrivOk b) : (e.setBefore b).ok := by
   cases e with
   | leaf k t b' a => exact ⟨h.1, hb, h.2.2⟩
@@ -232,6 +215,8 @@ theorem ok_setBefore {e : Expr} (h : e.ok) {b : List Trivia} (hb : TrivOk b) : (
   | binding n v g b' a => exact ⟨h.1, h.2.1, hb, h.2.2.2⟩
   | paren v lg tg lb tb b' a => exact ⟨h.1, hb, h.2.2⟩
   | app n x g fa b' a => exact ⟨h.1, h.2.1, h.2.2.1, hb, h.2.2.2.2⟩
+  | wth e bd c g s b' a => exact ⟨h.1, h.2.1, h.2.2.1, h.2.2.2.1, hb, h.2.2.2.2.2⟩
+  | asrt c bd x y b' a => exact h.elim
 
 theorem ok_setAfter {e : Expr} (h : e.ok) {a : List Trivia} (ha : TrivOk a) : (e.setAfter a).ok := by
   cases e with
@@ -241,6 +226,8 @@ theorem ok_setAfter {e : Expr} (h : e.ok) {a : List Trivia} (ha : TrivOk a) : (e
   | binding n v g b a' => exact ⟨h.1, h.2.1, h.2.2.1, ha⟩
   | paren v lg tg lb tb b a' => exact ⟨h.1, h.2.1, ha⟩
   | app n x g fa b a' => exact ⟨h.1, h.2.1, h.2.2.1, h.2.2.2.1, ha⟩
+  | wth e bd c g s b a' => exact ⟨h.1, h.2.1, h.2.2.1, h.2.2.2.1, h.2.2.2.2.1, ha⟩
+  | asrt c bd x y b a' => exact h.elim
 
 theorem ok_addAfter {e : Expr} (h : e.ok) {a : List Trivia} (ha : TrivOk a) : (e.addAfter a).ok :=
   ok_setAfter h (trivOk_append (ok_after h) ha)
@@ -264,9 +251,14 @@ theorem lexOut_setBefore (e : Expr) (hb : e.before = []) (b : List Trivia) (na :
   | binding n v g b' a => simp only [Expr.before] at hb; subst hb; simp [Expr.setBefore, Expr.lexOut]
   | paren v lg tg lb tb b' a => simp only [Expr.before] at hb; subst hb; simp [Expr.setBefore, Expr.lexOut]
   | app n x g fa b' a => simp only [Expr.before] at hb; subst hb; simp [Expr.setBefore, Expr.lexOut]
+  | wth e bd c g s b' a => simp only [Expr.before] at hb; subst hb; simp [Expr.setBefore, Expr.lexOut]
+  | asrt c bd x y b' a => simp only [Expr.before] at hb; subst hb; simp [Expr.setBefore, Expr.lexOut]
 
-theorem lexOut_addAfter (e : Expr) (ts : List Trivia) : (e.addAfter ts).lexOut false = e.lexOut false ++ cm ts := by
+theorem lexOut_addAfter (e : Expr) (hok : e.ok) (ts : List Trivia) :
+    (e.addAfter ts).lexOut false = e.lexOut false ++ cm ts := by
   cases e with
+  | wth e bd c g s b a => simp [Expr.addAfter, Expr.setAfter, Expr.after, Expr.lexOut]
+  | asrt c bd x y b a => exact hok.elim
   | leaf k t b a => simp [Expr.addAfter, Expr.setAfter, Expr.after, Expr.lexOut]
   | list v m inn b a => simp [Expr.addAfter, Expr.setAfter, Expr.after, Expr.lexOut]
   | set v m r inn b a => simp [Expr.addAfter, Expr.setAfter, Expr.after, Expr.lexOut]
@@ -282,6 +274,8 @@ theorem lexOut_addAfter_true (e : Expr) (ts : List Trivia) : (e.addAfter ts).lex
   | binding n v g b a => simp [Expr.addAfter, Expr.setAfter, Expr.after, Expr.lexOut]
   | paren v lg tg lb tb b a => simp [Expr.addAfter, Expr.setAfter, Expr.after, Expr.lexOut]
   | app n x g fa b a => simp [Expr.addAfter, Expr.setAfter, Expr.after, Expr.lexOut]
+  | wth e bd c g s b a => simp [Expr.addAfter, Expr.setAfter, Expr.after, Expr.lexOut]
+  | asrt c bd x y b a => simp [Expr.addAfter, Expr.setAfter, Expr.after, Expr.lexOut]
 
 theorem lexOut_true_of_after_nil (e : Expr) (h : e.after = []) : e.lexOut true = e.lexOut false := by
   cases e with
@@ -291,18 +285,20 @@ theorem lexOut_true_of_after_nil (e : Expr) (h : e.after = []) : e.lexOut true =
   | binding n v g b a => simp only [Expr.after] at h; subst h; simp [Expr.lexOut]
   | paren v lg tg lb tb b a => simp only [Expr.after] at h; subst h; simp [Expr.lexOut]
   | app n x g fa b a => simp only [Expr.after] at h; subst h; simp [Expr.lexOut]
+  | wth e bd c g s b a => simp only [Expr.after] at h; subst h; simp [Expr.lexOut]
+  | asrt c bd x y b a => simp only [Expr.after] at h; subst h; simp [Expr.lexOut]
 
 theorem modifyLast_isEmpty {α : Type} (f : α → α) : ∀ (l : List α), (modifyLast f l).isEmpty = l.isEmpty
   | [] => rfl
   | [_] => rfl
   | _ :: _ :: _ => rfl
 
-theorem modifyLast_addAfter : ∀ (items : List Expr) (ts : List Trivia), items ≠ [] →
+theorem modifyLast_addAfter : ∀ (items : List Expr) (ts : List Trivia), allOk items → items ≠ [] →
     lexOutAll (modifyLast (fun e => e.addAfter ts) items) = lexOutAll items ++ cm ts
-  | [], _, h => absurd rfl h
-  | [e], ts, _ => by simp [modifyLast, lexOutAll, lexOut_addAfter]
-  | e :: e' :: rest, ts, _ => by
-    have ih := modifyLast_addAfter (e' :: rest) ts (by simp)
+  | [], _, _, h => absurd rfl h
+  | [e], ts, hok, _ => by simp [modifyLast, lexOutAll, lexOut_addAfter e hok.1]
+  | e :: e' :: rest, ts, hok, _ => by
+    have ih := modifyLast_addAfter (e' :: rest) ts hok.2 (by simp)
     simp only [modifyLast, lexOutAll] at ih ⊢
     rw [ih]; simp [List.append_assoc]
 
@@ -425,7 +421,7 @@ theorem seqComment_spec (strict : Bool) (m : Mode) (st : SeqSt) (g t : Text) (ht
     have hc := mkComment_cOk ht true
     refine ⟨⟨modifyLast_ok hst.1 (trivOk_comment hc), pushGap_ok hst.2 g⟩, ?_, rfl, modifyLast_isEmpty _ _,
       fun _ => pushGap_cm st g⟩
-    simp only [seqLex, modifyLast_addAfter _ _ hne, pushGap_cm, cm_comment, cm_nil, mkComment_token]
+    simp only [seqLex, modifyLast_addAfter _ _ hst.1 hne, pushGap_cm, cm_comment, cm_nil, mkComment_token]
     cases strict with
     | true =>
       have := (hord rfl).1 ((hord rfl).2 hin)
@@ -443,6 +439,15 @@ theorem seqComment_spec (strict : Bool) (m : Mode) (st : SeqSt) (g t : Text) (ht
     simp [seqLex, pushGap_cm, normCmt, List.append_assoc]
 
 theorem trivOk_emptyLine : TrivOk [Trivia.emptyLine] := ⟨by simp [CommaFree], by intro c hc; simp at hc⟩
+theorem trivOk_linebreak : TrivOk [Trivia.linebreak] := ⟨by simp [CommaFree], by intro c hc; simp at hc⟩
+
+theorem appendGapTrivia_cases (g : Text) :
+    appendGapTrivia [] g = [] ∨ appendGapTrivia [] g = [.emptyLine] ∨ appendGapTrivia [] g = [.linebreak] := by
+  unfold appendGapTrivia; split
+  · exact Or.inr (Or.inl rfl)
+  · split
+    · exact Or.inr (Or.inr rfl)
+    · exact Or.inl rfl
 
 /-- after the loop -/
 theorem finishSeq_spec {st : SeqSt} (hst : StOk st) (cgo : Option Text) (hc : Bool) :
@@ -462,7 +467,7 @@ theorem finishSeq_spec {st : SeqSt} (hst : StOk st) (cgo : Option Text) (hc : Bo
           fun h => absurd rfl h⟩
       · have hne : st.items ≠ [] := by simpa using hi
         exact ⟨_, [], by rw [if_neg hb, if_neg hi], modifyLast_ok hst.1 hst.2, trivOk_nil,
-          by simp [seqLex, modifyLast_addAfter _ _ hne], fun _ => rfl⟩
+          by simp [seqLex, modifyLast_addAfter _ _ hst.1 hne], fun _ => rfl⟩
   obtain ⟨items, inner, he, h1, h2, h3, h4⟩ := stage1
   unfold finishSeq
   simp only [he]
@@ -479,7 +484,7 @@ theorem finishSeq_spec {st : SeqSt} (hst : StOk st) (cgo : Option Text) (hc : Bo
       · rename_i hie
         have hne : items ≠ [] := by simpa using hie
         refine ⟨modifyLast_ok h1 trivOk_emptyLine, h2, ?_, fun _ => h4 hne⟩
-        rw [modifyLast_addAfter _ _ hne]; simpa using h3
+        rw [modifyLast_addAfter _ _ h1 hne]; simpa using h3
     · exact ⟨h1, h2, h3, h4⟩
 
 theorem emptyInner_spec {items : List Expr} {inner : List Trivia} (h : TrivOk inner) (between : Text) :
@@ -836,6 +841,33 @@ theorem cst_parse_spec (strict : Bool) : (c : Cst) → c.wf = true → (strict =
     refine ⟨appFromCst fe ae cs g, by simp only [Cst.parse, hpf, hpa], hsp.1, hsp.2.1, hsp.2.2.1, ?_⟩
     rw [hsp.2.2.2, Cst.lexM]
     simp only [proj_append, hfl, hal]
+  | .kw w c1 g1 h c2 g2 c3 g3 b, hwf, hord => by
+    simp only [Cst.wf, Bool.and_eq_true, List.isEmpty_iff] at hwf
+    obtain ⟨⟨⟨⟨⟨⟨⟨⟨hw, hc1⟩, _⟩, hhw⟩, hc2⟩, _⟩, hc3⟩, _⟩, hbw⟩ := hwf
+    subst hw; subst hc1; subst hc2; subst hc3
+    have hord' : strict = true → h.orderOk = true ∧ b.orderOk = true := by
+      intro hs
+      have := hord hs
+      simpa [Cst.orderOk] using this
+    obtain ⟨he, hph, hhok, _, _, hhl⟩ := cst_parse_spec strict h hhw (fun hs => (hord' hs).1)
+    obtain ⟨be, hpb, hbok, hbb, hba, hbl⟩ := cst_parse_spec strict b hbw (fun hs => (hord' hs).2)
+    have hbody : ∃ bd, withFromCst he be [] g1 [] g2 [] g3 = .wth he bd [] g1 [] [] [] ∧ bd.ok ∧
+        bd.lexOut false = be.lexOut false := by
+      unfold withFromCst
+      simp only [collectTrivia, collectGo, semiSeq, List.isEmpty_nil, Bool.not_true, Bool.false_and, Bool.false_eq_true,
+        if_false, if_true]
+      rcases appendGapTrivia_cases (g2 ++ ';' :: g3) with e | e | e <;> rw [e]
+      · exact ⟨be, by simp [splitInline], hbok, rfl⟩
+      · refine ⟨be.setBefore ([.emptyLine] ++ be.before), by simp [splitInline], ok_setBefore hbok (by rw [hbb]; exact trivOk_emptyLine), ?_⟩
+        rw [lexOut_setBefore be hbb, hbb]; simp
+      · refine ⟨be.setBefore ([.linebreak] ++ be.before), by simp [splitInline], ok_setBefore hbok (by rw [hbb]; exact trivOk_linebreak), ?_⟩
+        rw [lexOut_setBefore be hbb, hbb]; simp
+    obtain ⟨bd, hbd, hbdok, hbdl⟩ := hbody
+    refine ⟨.wth he bd [] g1 [] [] [], by simp only [Cst.parse, hph, hpb, if_true, hbd], ⟨hhok, hbdok, rfl, rfl, trivOk_nil, trivOk_nil⟩,
+      rfl, rfl, ?_⟩
+    simp only [Expr.lexOut, Cst.lexM, cm_nil, List.nil_append, List.append_nil, if_false, Bool.false_eq_true, ncm, List.map_nil,
+      kwText, if_true, hbdl]
+    simp only [proj_append, hhl, hbl, kwWith]
 theorem items_parse_spec (strict : Bool) : (its : Items) → ∀ (m : Mode) (cg : Text) (st : SeqSt) (pend : Bool),
     its.wf m cg = true → StOk st →
     (strict = true → its.orderOk m st.prev pend (!st.items.isEmpty) = true ∧ (pend = false → cm st.before = [])) →
@@ -1035,6 +1067,13 @@ theorem cst_toks_lexM : (c : Cst) → toksL c.lexM = toksL c.lex
     simp only [toksL_append, this]
   | .app f cs _ a => by
     simp only [Cst.lexM, Cst.lex, toksL_append, toksL_ncm, toksL_lexGC, cst_toks_lexM f, cst_toks_lexM a]
+  | .kw w c1 _ h c2 _ c3 _ b => by
+    simp only [Cst.lexM, Cst.lex]
+    rw [show (Lex.tok (kwText w) :: ncm c1 ++ h.lexM ++ ncm c2 ++ Lex.tok [';'] :: ncm c3 ++ b.lexM) =
+        [Lex.tok (kwText w)] ++ ncm c1 ++ h.lexM ++ ncm c2 ++ [Lex.tok [';']] ++ ncm c3 ++ b.lexM from by simp,
+      show (Lex.tok (kwText w) :: lexGC c1 ++ h.lex ++ lexGC c2 ++ Lex.tok [';'] :: lexGC c3 ++ b.lex) =
+        [Lex.tok (kwText w)] ++ lexGC c1 ++ h.lex ++ lexGC c2 ++ [Lex.tok [';']] ++ lexGC c3 ++ b.lex from by simp]
+    simp only [toksL_append, toksL_ncm, toksL_lexGC, cst_toks_lexM h, cst_toks_lexM b]
 theorem items_toks_lexM : (its : Items) → toksL its.lexM = toksL its.lex
   | .nil => rfl
   | .cmt _ t rest => by
